@@ -10,6 +10,7 @@ equality (nf) only where the evaluation order differs):
 Vector / scalar contracts (Eigen::Matrix<S,n,1>, S) through smooth's free-function LieGroup interface:
   composition == +, inverse == -, exp == log == id, Ad == dr_exp == dr_expinv == I, ad == 0, d2r_exp == d2r_expinv == 0.
 """
+import random
 import itertools
 
 from irsx import dag, engine, diff as dd, symex
@@ -119,7 +120,7 @@ def run_bundle(bname, s, tier="quick", seed=0, canary=False):
                 for pv in pviews:
                     conds = dd.subst([a[0] for a in pv.atoms], ren) if pv.atoms else []
                     outs = dd.subst(pv.out(ob), ren)
-                    items.append((set((c.id, a[1]) for c, a in zip(conds, pv.atoms)), outs))
+                    items.append((set((c.id, a[1]) for c, a in zip(conds, pv.atoms)), outs, [(c, a[1]) for c, a in zip(conds, pv.atoms)]))
                 pdata.append((P, ro, do, mo, items))
             nout = size_of(B, okind)
             for k, bv in enumerate(bviews):
@@ -132,6 +133,40 @@ def run_bundle(bname, s, tier="quick", seed=0, canary=False):
                         outs = rn_spec(B, P, ro, do, mo, op, ins, s)
                     else:
                         hits = [it for it in items if it[0] <= batoms]
+                        if len(hits) == 0:
+                            # the Bundle operation branches differently from the part's operation: it cannot be the part's operation on the
+                            # segment.  Numeric confirmation: an input on this Bundle path where the part's own result differs.
+                            moid = "%s::%s/p%d/follows-the-branches-of-%s" % (tag, op, k, P.name)
+                            wit = None
+                            rng_ = random.Random(seed + k)
+                            for _t in range(200):
+                                e_ = {}
+                                for nm_, kd_ in ins:
+                                    e_.update(B.sample_group(rng_, nm_) if kd_ == "g" else B.sample_tangent(rng_, nm_, rotnorm=10 ** rng_.uniform(-3, 0.3)) if kd_ == "t" else
+                                              {"%s%d" % (nm_, i_): rng_.gauss(0, 1) for i_ in range(size_of(B, kd_))})
+                                if not engine.path_holds(bv, e_):
+                                    continue
+                                for cs_, outs_, cn_ in items:
+                                    try:
+                                        vals_ = dag.eval_ieee([c_ for c_, _ in cn_] + list(outs_) + list(bv.out(ob)), e_)
+                                    except Exception:
+                                        continue
+                                    if all(bool(vals_[c_.id]) == ch_ for c_, ch_ in cn_):
+                                        for i_, j_ in im.items():
+                                            a_, b_ = vals_[outs_[i_].id], vals_[bv.out(ob)[j_].id]
+                                            if abs(a_ - b_) > 1e-9 * (1 + abs(a_) + abs(b_)):
+                                                wit = dict(env=e_, cell=j_, part_value=a_, bundle_value=b_)
+                                                break
+                                    if wit:
+                                        break
+                                if wit:
+                                    break
+                            from .common import write_replay
+                            res.add(moid, "refuted", "struct", 0.0, "no path of %s::%s has branch conditions contained in this Bundle path" % (P.name, op), witness=wit,
+                                    extra=dict(confirmed=wit is not None, replay=write_replay(moid, dict(obligation=moid, witness=wit,
+                                               reason="the Bundle operation does not follow the branch structure of the part's operation on its segment"))))
+                            okpath = False
+                            continue
                         if len(hits) != 1:
                             res.add("%s::%s/p%d/match-%s" % (tag, op, k, P.name), "error", "struct", 0.0,
                                     "%d part paths match the bundle path" % len(hits))
